@@ -10,13 +10,23 @@ import (
 	btpb "cloud.google.com/go/bigtable/apiv2/bigtablepb"
 )
 
-func H_C18_scan() {
+func H_C18_scan() { c18Run(vBound("writers", 1, 2), false) }
+
+// H_C18_rowset: the same scan requested as a RowSet whose entries overlap (one range covering the
+// table plus two keys inside it), with one concurrent writer.
+func H_C18_rowset() { c18Run(1, true) }
+
+func c18Run(nw int, rowset bool) {
 	s := vNewServer(vEngLeveldbMem, func() bigtable.Timestamp { return 5000 })
 	vCreateTable(s, "f")
 	tbl := s.tables[vTable]
 	// row "a": 1025 versions in one column (concrete), forces a flush after the first row
 	big := &btpb.Column{Qualifier: []byte("q")}
-	for i := 0; i < 1025; i++ {
+	ncells := 1025
+	if rowset {
+		ncells = 1 // single-message variant: the RowSet shape is the subject, not the lock hand-over
+	}
+	for i := 0; i < ncells; i++ {
 		big.Cells = append(big.Cells, &btpb.Cell{TimestampMicros: int64(2000000 - 1000*i), Value: []byte("x")})
 	}
 	tbl.rows.ReplaceOrInsert(&btpb.Row{Key: []byte("a"), Families: []*btpb.Family{{Name: "f", Columns: []*btpb.Column{big}}}})
@@ -29,7 +39,6 @@ func H_C18_scan() {
 	}
 	// writers: each performs one write on a chosen row (existing, new between, new after)
 	targets := []string{"a", "b", "c", "d", "e"}
-	nw := vBound("writers", 1, 2)
 	type wr struct {
 		key  string
 		kind int
@@ -64,7 +73,13 @@ func H_C18_scan() {
 	sends := 0
 	vGo(func() {
 		st := &vReadStream{onSend: func() { sends++; vYield() }}
-		rerr = s.ReadRows(&btpb.ReadRowsRequest{TableName: vTable}, st)
+		req := &btpb.ReadRowsRequest{TableName: vTable}
+		if rowset {
+			req.Rows = &btpb.RowSet{
+				RowRanges: []*btpb.RowRange{{StartKey: &btpb.RowRange_StartKeyClosed{StartKeyClosed: []byte("a")}, EndKey: &btpb.RowRange_EndKeyOpen{EndKeyOpen: []byte("z")}}},
+				RowKeys:   [][]byte{[]byte("b"), []byte("d")}}
+		}
+		rerr = s.ReadRows(req, st)
 		rows, okStream = vDecode(st.msgs)
 	})
 	vJoin()
@@ -89,11 +104,11 @@ func H_C18_scan() {
 			}
 		}
 		if k == "a" && !written {
-			vAssert(len(r.cells) == 1025, "untouched-big-row-intact")
+			vAssert(len(r.cells) == ncells, "untouched-big-row-intact")
 			continue
 		}
 		if k == "a" {
-			vAssert(len(r.cells) >= 1025 && len(r.cells) <= 1026, "written-big-row-has-a-real-shape")
+			vAssert(len(r.cells) >= ncells && len(r.cells) <= ncells+1, "written-big-row-has-a-real-shape")
 			continue
 		}
 		orig, had := vals[k]
@@ -129,4 +144,5 @@ func H_C18_scan() {
 
 func init() {
 	vHarnesses["H_C18_scan"] = H_C18_scan
+	vHarnesses["H_C18_rowset"] = H_C18_rowset
 }
